@@ -307,6 +307,21 @@ ExecuteOp(S, D, op, inputs, outs, dev) ==
         vvals |-> LET ns == SetToSeq(DOMAIN vv.vals)
                   IN [i \in 1..Len(ns) |-> [n |-> ns[i], v |-> vv.vals[ns[i]]]]]
 
+\* GetOperation: the operation a request selects, if any
+SelectOp(D, name) ==
+  IF name = "" THEN (IF Len(D.ops) = 1 THEN [ok |-> TRUE, op |-> D.ops[1]] ELSE [ok |-> FALSE, op |-> D.ops[1]])
+  ELSE IF \E i \in 1..Len(D.ops) : D.ops[i].name = name
+       THEN [ok |-> TRUE, op |-> D.ops[CHOOSE i \in 1..Len(D.ops) : D.ops[i].name = name]]
+       ELSE [ok |-> FALSE, op |-> D.ops[1]]
+
+RequestError == [data |-> [k |-> "absent"], reqerr |-> TRUE, unspec |-> FALSE, errs |-> <<>>, opt |-> <<>>,
+                 calls |-> <<>>, tcalls |-> <<>>, esc |-> <<>>, all |-> <<>>, vvals |-> <<>>]
+
+\* ExecuteRequest: operation selection, then ExecuteOp
+ExecuteRequest(S, D, name, inputs, outs, dev) ==
+  LET so == SelectOp(D, name) IN
+  IF so.ok THEN ExecuteOp(S, D, so.op, inputs, outs, dev) ELSE RequestError
+
 \* ------------------------------------- well-formedness of a response (C04)
 \* Independent of the executor above: it looks only at schema, document and
 \* response.  Inclusion is ignored (StaticGroups collects every occurrence),
